@@ -124,8 +124,34 @@ def input_tie(ctx, seed, n):
                                                  "doc": bytes.fromhex(d["req"]["doc"]).decode("utf-8", "backslashreplace")[:400]})
 
 
+def confusable(ctx, r):
+    """every family of confusable titles (titles that collide when glued with a separator, differ only in case or surrounding blanks, are prefixes
+    of one another) × every separator, each on a small store of its own through the real binary and the model, under this property's oracle"""
+    cases = [(sep, "glue") for sep in gen.CONFUSABLE_SEPS] + [(None, "case"), (None, "prefix")]
+    for k in range(len(cases) if ctx.quick else 120):
+        sep, fam = cases[k % len(cases)]
+        doc = gen.gen_confusable_plan(r, sep=sep, fam=fam)
+        st = cmdrun.Store(ctx.ergo, ctx.go)
+        trace = []
+        try:
+            st.exec(["--json", "new", "task"], b'{"title":"already there"}')
+            req = {"cmd": "plan", "plan": doc}
+            rec = cmdrun.run_and_compare(st, ctx.model, cmdrun.classify_raw(ctx.go, req), "")
+            trace.append({"argv": cmdrun.argv_of(req, ""), "stdin": json.dumps(doc, ensure_ascii=False), "exit": rec["exit"]})
+            ctx.count(1, key=("confusable", doc["title"], rec["exit"] == 0))
+            if "err" in rec["pre"] or "err" in rec["post"]:
+                continue
+            if rec["diff"]:
+                ctx.tie_broken("T2-cmd (confusable plan)", {"diff": rec["diff"], "trace": trace})
+            if oracle(ctx, st, req, "", rec, trace):
+                return
+        finally:
+            st.close()
+
+
 def run(ctx):
     r = gen.Rng(ctx.seed * 1000003 + 11)
+    confusable(ctx, r.fork())
     input_tie(ctx, ctx.seed + 1100, 600 if ctx.quick else 30000)
     framing(ctx, r.fork())
     for h in range(25 if ctx.quick else 400):
